@@ -2084,8 +2084,8 @@ VARIANTS = [
             "    if start_value is None or end_value is None:\n        raise ValueError(\"The closed form needs start <= stop, which is only known for constants\")\n\n    if start_value > end_value:\n        return ast.Constant(value=0, kind=None)\n\n", "", "R17.13"),
     Variant("helper-hands-its-argument-back", "FIRE", "symbolic_math", "        raise ValueError(\"Only a range with step 1 has this closed form\")", "        return rng", "R17.12"),
     Variant("function-name-tested-in-one-branch-only", "FIRE", "symbolic_math",
-            "        if node.func.id != \"sum\":\n            continue  # The closed forms below are those of sums, len([1, 2, 3]) is not 6\n\n        arg = node.args[0]\n        if core.match_template(arg, ast.Call(func=ast.Name(id=\"range\"))):\n            if any((node is not arg for node in core.walk(arg, (ast.Attribute, ast.Call)))):\n                continue\n",
-            "        arg = node.args[0]\n        if core.match_template(arg, ast.Call(func=ast.Name(id=\"range\"))):\n            if any((node is not arg for node in core.walk(arg, (ast.Attribute, ast.Call)))):\n                continue\n            if node.func.id != \"sum\":\n                continue\n", "R17.11"),
+            "        if node.func.id != \"sum\":\n            continue  # The closed forms below are those of sums, len([1, 2, 3]) is not 6\n\n        if any(core.walk(node, ast.BitXor)):\n            continue  # sympy reads the code as text, and in its grammar 7 ^ 3 is 7 ** 3\n\n        arg = node.args[0]\n        if core.match_template(arg, ast.Call(func=ast.Name(id=\"range\"))):\n            if any((node is not arg for node in core.walk(arg, (ast.Attribute, ast.Call)))):\n                continue\n",
+            "        if any(core.walk(node, ast.BitXor)):\n            continue\n\n        arg = node.args[0]\n        if core.match_template(arg, ast.Call(func=ast.Name(id=\"range\"))):\n            if any((node is not arg for node in core.walk(arg, (ast.Attribute, ast.Call)))):\n                continue\n            if node.func.id != \"sum\":\n                continue\n", "R17.11"),
     Variant("range-bound-from-any-constant", "FIRE", "symbolic_math",
             "                left=ast.Name(id=target_name), ops=[ast.Gt()], comparators=[ast.Constant(value=int)]",
             "                left=ast.Name(id=target_name), ops=[ast.Gt()], comparators=[ast.Constant()]", "R17.9"),
